@@ -344,6 +344,46 @@ func checkC18Registry(sc *Scenario, acc *Acc) *c18Fail {
 	if m.Kind != "err" || !strings.Contains(m.Err, sc.Cwd+"/does/not/exist.tw") {
 		return &c18Fail{sig: "evalfile-missing-not-reported", clause: "EvaluateFile of a missing file does not return an error naming the path", got: m.Short()}
 	}
+	// The same process has served ANOTHER site before: the same relative directory spelling under
+	// another working directory, every file with other content. After a chdir the tree under test is
+	// loaded; nothing is reset in between. The registry and every rendering must be what they are in
+	// a fresh process (relative names are relative to the directory given NOW).
+	single := map[string]Obs{}
+	for _, name := range ex.Names {
+		single[name] = w.RunOp(Op{Kind: "string", Name: name, Data: c18Data}, Budget)
+	}
+	oldCwd := "/old" + sc.Cwd
+	both := append([]File{}, sc.Files...)
+	for _, f := range sc.Files {
+		g := f
+		g.Path = "/old" + f.Path
+		if g.Kind == "" {
+			g.Data = strings.NewReplacer("FILE[", "OLDSITE[", "<html>", "<html data-old>", "WL ", "OLDWL ", "SHELL", "OLDSHELL", "ADV[", "OLDADV[").Replace(g.Data)
+		}
+		both = append(both, g)
+	}
+	w2 := NewWorld(oldCwd, both)
+	pinSeams()
+	if o := w2.RunOp(sc.Ops[0], Budget); o.Kind == "ok" && !o.NilT {
+		for _, name := range ex.Names {
+			w2.RunOp(Op{Kind: "string", Name: name, Data: c18Data}, Budget)
+		}
+	}
+	w2.FS.Cwd = sc.Cwd // chdir
+	lo2 := w2.RunOp(sc.Ops[0], Budget)
+	acc.Evals++
+	acc.Probe("registry-trees-loaded-after-another-site-and-a-chdir", 1)
+	if lo2.Kind != lo.Kind || lo2.NilT != lo.NilT {
+		return &c18Fail{sig: "registry:after-chdir:load-differs:" + ex.Spelling, clause: "after the process served another directory and changed its working directory, loading the same relative directory gives another result than in a fresh process",
+			detail: fmt.Sprintf("dir spelling %q, earlier cwd %q, cwd now %q", sc.Ops[0].Cfg.Dir, oldCwd, sc.Cwd), exp: lo.Short(), got: lo2.Short()}
+	}
+	for _, name := range ex.Names {
+		o := w2.RunOp(Op{Kind: "string", Name: name, Data: c18Data}, Budget)
+		if e := single[name]; o.Key() != e.Key() {
+			return &c18Fail{sig: "registry:after-chdir:render-differs:" + ex.Spelling, clause: "after the process served another directory and changed its working directory, a template renders something else than in a fresh process",
+				detail: fmt.Sprintf("name %q, dir spelling %q, earlier cwd %q, cwd now %q", name, sc.Ops[0].Cfg.Dir, oldCwd, sc.Cwd), exp: e.Short(), got: o.Short()}
+		}
+	}
 	return nil
 }
 
